@@ -3,9 +3,11 @@ package main
 import (
 	"fmt"
 	"os"
+	"os/exec"
 	"path/filepath"
 	"strconv"
 	"strings"
+	"sync"
 	"sync/atomic"
 	"time"
 
@@ -191,10 +193,33 @@ func checkC17(tier, replay string) int {
 		for _, p := range []int{0, 1, 64, 65, 700, len(L) - 1, len(L)} {
 			hs = append(hs, history{[]fault{{Kind: "kill-profiler-after", P: p, Listing: "small"}}})
 		}
-		for n := 1; n <= 9; n++ {
+		for n := 1; n <= 18; n++ {
 			hs = append(hs, history{[]fault{{Kind: "kill-at-write", N: n, Listing: "big"}}})
 			hs = append(hs, history{[]fault{{Kind: "err-at-write", N: n, Listing: "big"}}})
-			hs = append(hs, history{[]fault{{Kind: "kill-at-write", N: n, Listing: "small"}}})
+			if n <= 12 {
+				hs = append(hs, history{[]fault{{Kind: "kill-at-write", N: n, Listing: "small"}}})
+				hs = append(hs, history{[]fault{{Kind: "err-at-write", N: n, Listing: "small"}}})
+			}
+		}
+		// the file system refuses to let a file grow beyond L bytes (RLIMIT_FSIZE stands for a full disk or a quota): it hits
+		// whoever writes the cache file, the profiler or the disassembler child
+		if _, err := exec.LookPath("prlimit"); err == nil {
+			for _, lst := range []struct {
+				name string
+				size int
+			}{{"small", len(L)}, {"big", len(LB)}} {
+				lim := map[int]bool{0: true, 1: true, 64: true, 65: true, 66: true, 100: true, lst.size - 40: true, lst.size: true, lst.size + 30: true, lst.size + 64: true, lst.size + 65: true, lst.size + 66: true}
+				for p := 4096; p < lst.size+4096; p += 4096 {
+					lim[p-1], lim[p], lim[p+1], lim[p+65] = true, true, true, true
+				}
+				for l := range lim {
+					if l >= 0 {
+						hs = append(hs, history{[]fault{{Kind: "fsize-limit", P: l, Listing: lst.name}}})
+					}
+				}
+			}
+		} else {
+			ctx.Capped("prlimit not available: file-size-limit faults skipped")
 		}
 		// depth 2: a second fault before the normal run
 		var lineCuts []int
@@ -220,6 +245,8 @@ func checkC17(tier, replay string) int {
 		haveStrace = fmt.Errorf("strace cannot trace here")
 	}
 	var runs, reused, faultsHit, straceUnavailable int64
+	var kindMu sync.Mutex
+	failedByKind, runsByKind := map[string]int{}, map[string]int{}
 	parallelFor(len(hs), func(i int) {
 		h := hs[i]
 		bin, cache := newBin()
@@ -242,6 +269,8 @@ func checkC17(tier, replay string) int {
 				r = runProf(bin, last, []string{fmt.Sprintf("FAKE_CUT=%d", f.P), "FAKE_KILL=self"})
 			case "kill-profiler-after":
 				r = runProf(bin, last, []string{fmt.Sprintf("FAKE_CUT=%d", f.P), "FAKE_KILL=parent"})
+			case "fsize-limit":
+				r = runProf(bin, last, nil, "prlimit", fmt.Sprintf("--fsize=%d", f.P))
 			case "tool-missing":
 				r = runCmd(60*time.Second, []string{"PATH=/nonexistent-dir", "HOME=" + filepath.Join(scratch, "home"), "USER=root"}, scratch, pe.profiler, "-format", "config", bin)
 			case "kill-at-write", "err-at-write":
@@ -253,12 +282,21 @@ func checkC17(tier, replay string) int {
 				if f.Kind == "err-at-write" {
 					inj = fmt.Sprintf("inject=write:error=ENOSPC:when=%d", f.N)
 				}
-				r = runProf(bin, last, nil, "strace", "-f", "-o", "/dev/null", "-P", cache, "-e", "trace=write", "-e", inj)
+				// the N-th write(2) of every thread of the profiler and of every process it starts is a fault point (strace counts
+				// per tracee): log lines, the blocks of the cache file - written under a temporary name by the goroutine that
+				// copies the disassembler's output -, the emitted profile, and the disassembler's own writes into the pipe
+				r = runProf(bin, last, nil, "strace", "-f", "-o", "/dev/null", "-e", "trace=write", "-e", inj)
 			}
 			atomic.AddInt64(&runs, 1)
 			if r.Exit != 0 {
 				atomic.AddInt64(&faultsHit, 1)
+				kindMu.Lock()
+				failedByKind[f.Kind]++
+				kindMu.Unlock()
 			}
+			kindMu.Lock()
+			runsByKind[f.Kind]++
+			kindMu.Unlock()
 		}
 		final := runProf(bin, last, nil)
 		atomic.AddInt64(&runs, 1)
@@ -400,11 +438,13 @@ func checkC17(tier, replay string) int {
 	ctx.Cov["histories"] = len(hs)
 	ctx.Cov["profiler_runs"] = runs
 	ctx.Cov["fault_runs_that_made_the_profiler_fail"] = faultsHit
+	ctx.Cov["fault_runs_by_kind"] = runsByKind
+	ctx.Cov["fault_runs_that_made_the_profiler_fail_by_kind"] = failedByKind
 	ctx.Cov["final_runs_that_reused_the_cache"] = reused
 	if straceUnavailable > 0 {
 		ctx.Capped("strace not available: write-level crash points skipped")
 	}
-	ctx.Cov["rule"] = "histories run1(fault)[; run2(fault')]; run(normal) on the real profiler binary with a fake `go` tool: disassembler prints the first p bytes of the listing and exits 1 or is killed (quick: every line boundary, every byte of the first two lines and of the execve site, around every 4096-byte flush boundary of a 20 kB listing; thorough: every byte), tool missing from PATH, the profiler itself killed with SIGKILL after the disassembler produced p bytes (every 1024 bytes of a 20 kB listing), SIGKILL or ENOSPC injected by strace at the N-th write to the cache file (N=1..9), and depth-2 fault sequences at line granularity; oracle: the final normal run prints exactly the cold-cache profile or exits non-zero, and a reused cache file equals the complete one; replacement histories: the binary at the same path is replaced by another one (other architecture; same file with bytes of .text flipped, i.e. identical Go build id), with and without an EIO injected at the N-th read while hashing, and with the disassembler failing for the new binary while the old binary's complete cache file is still there (tool missing; exit 1 after all, half or none of the output; killed): a run that exits 0 must print the new binary's cold profile, and so must the normal run after it; distinct_nontrivial = histories"
+	ctx.Cov["rule"] = "histories run1(fault)[; run2(fault')]; run(normal) on the real profiler binary with a fake `go` tool: disassembler prints the first p bytes of the listing and exits 1 or is killed (quick: every line boundary, every byte of the first two lines and of the execve site, around every 4096-byte flush boundary of a 20 kB listing; thorough: every byte), tool missing from PATH, the profiler itself killed with SIGKILL after the disassembler produced p bytes (every 1024 bytes of a 20 kB listing), SIGKILL or ENOSPC injected by strace at the N-th write(2) of every thread of the profiler and of its children (N=1..18, counted per thread: log lines, every block of the cache file, the emitted profile, the disassembler's writes), a file size limit L (RLIMIT_FSIZE, standing for a full disk; L around the hash line, around every 4096-byte boundary and around the complete size) that hits whoever writes the cache file, and depth-2 fault sequences at line granularity; oracle: the final normal run prints exactly the cold-cache profile or exits non-zero, and a reused cache file equals the complete one; replacement histories: the binary at the same path is replaced by another one (other architecture; same file with bytes of .text flipped, i.e. identical Go build id), with and without an EIO injected at the N-th read while hashing, and with the disassembler failing for the new binary while the old binary's complete cache file is still there (tool missing; exit 1 after all, half or none of the output; killed): a run that exits 0 must print the new binary's cold profile, and so must the normal run after it; distinct_nontrivial = histories"
 	ctx.Assumptions = []string{"the fake go tool stands for any disassembler failure; the cache path is <home>/.seccomp-profiler/<base>-<sha256(abs)[:10]> as the profiler logs it", "strace injection realises crashes at write granularity"}
 	if replay != "" {
 		return finishReplay(ctx)
